@@ -111,11 +111,13 @@ impl Exec {
     fn tol(&self) -> f64 {
         8.0 * EPS24 * self.max_abs_x.max(1e-30) * self.gain_max
     }
+    /// a time that is more than 0.05 s away from `t` under every reading of "time in effect" (raw or clamped to
+    /// 10 s); a twin is first moved there so that its own dead band cannot swallow the call that follows
     fn far(t: f32) -> f32 {
-        if (t - 1000.0).abs() < 1.0 {
-            2000.0
+        if t > 5.0 {
+            1.0
         } else {
-            1000.0
+            9.0
         }
     }
 
@@ -335,11 +337,26 @@ impl Engine for GlideEngine {
                 let honoured = match ex.t_eff {
                     None => true, // nothing requested yet: the first call always takes effect
                     Some(te) => {
-                        let d = (t as f64 - te as f64).abs();
-                        if (d - 0.05).abs() < 1e-6 * (1.0 + t.abs() as f64 + te.abs() as f64) {
+                        // "the time currently in effect" can be read as the time last requested or as that time after
+                        // the documented clamps (above 10 s behaves like 10 s; below a few samples it is the fastest
+                        // response): the call is decided only if every reading gives the same answer
+                        let mut refs = vec![te as f64, (te as f64).min(10.0)];
+                        let fsd = ex.fs as f64;
+                        if (te as f64) * fsd < 4.0 {
+                            refs.extend_from_slice(&[0.0, 2.0 / fsd, 4.0 / fsd]);
+                        }
+                        let mut votes = Vec::new();
+                        for e in refs {
+                            let d = (t as f64 - e).abs();
+                            if (d - 0.05).abs() < 1e-6 * (1.0 + t.abs() as f64 + te.abs() as f64) {
+                                ambiguous = true;
+                            }
+                            votes.push(d > 0.05);
+                        }
+                        if votes.iter().any(|v| *v != votes[0]) {
                             ambiguous = true;
                         }
-                        d > 0.05
+                        votes[0]
                     }
                 };
                 if ambiguous || !t.is_finite() || t < 0.0 {
